@@ -150,6 +150,12 @@ func genC15(tier string, seed uint64, emit func(string)) {
 		k := kind
 		emit(lifeLine("plain tls", []string{"start", "tlsbad:" + k, "obs", "ping:t", "stop", "obs", "start", "tlsbad:" + k, "tlsbad:" + k, "restart", "ping:t", "stop", "obs"}))
 	}
+	// "while running, the registry contains exactly the connections being served": clients that complete the handshake
+	// and are turned away afterwards (name rule, wrong / stray / intermediate name), next to a client that is served
+	for _, cfg := range []string{"plain tls cn=client", "tls cn=client pw=secret", "plain tlsfiles cn=client"} {
+		emit(lifeLine(cfg, []string{"start", "open:t:g", "obs", "tlsbad:wrongcn", "obs", "tlsbad:intercn", "tlsbad:straycn", "tlsbad:wrongcn", "obs", "cmd:g",
+			"restart", "obs", "tlsbad:wrongcn", "obs", "open:t:h", "tlsbad:wrongcn", "obs", "cclose:h", "obs", "stop", "obs"}))
+	}
 	// forced schedules (hook H2): in each scenario the goroutines reaching the chosen schedule points are held back for
 	// 25 ms, so that the lifecycle call, the accept loops and the connection goroutines overtake each other in
 	// every order of those points - all single points and all pairs (quick), all subsets (thorough)
